@@ -2070,8 +2070,10 @@ static int dfs_copy(vnaproperty_t **destination, const vnaproperty_t *source)
 		free((void *)key);
 		return -1;
 	    }
+	    errno = 0;
 	    new_source = vnaproperty_get_subtree(source, "%s", key);
-	    if (dfs_copy(new_destination, new_source) == -1) {
+	    if ((new_source == NULL && errno != 0) ||
+		    dfs_copy(new_destination, new_source) == -1) {
 		free((void *)keys);
 		free((void *)key);
 		return -1;
@@ -2085,7 +2087,9 @@ static int dfs_copy(vnaproperty_t **destination, const vnaproperty_t *source)
 	if (vnaproperty_set_subtree(destination, "[]") == NULL) {
 	    return -1;
 	}
-	count = vnaproperty_count(source, ".");
+	if ((count = vnaproperty_count(source, ".")) == -1) {
+	    return -1;
+	}
 	for (int i = 0; i < count; ++i) {
 	    vnaproperty_t **new_destination, *new_source;
 
@@ -2093,7 +2097,11 @@ static int dfs_copy(vnaproperty_t **destination, const vnaproperty_t *source)
 	    if (new_destination == NULL) {
 		return -1;
 	    }
+	    errno = 0;
 	    new_source = vnaproperty_get_subtree(source, "[%d]", i);
+	    if (new_source == NULL && errno != 0) {
+		return -1;
+	    }
 	    if (dfs_copy(new_destination, new_source) == -1) {
 		return -1;
 	    }
